@@ -6,6 +6,12 @@ real parser produces and must agree with the independent Python oracle's structu
 oracle judges every tree of the sweep: structure, equality with CPython's positions for the kinds CPython
 positions, and `source[range] == construct text` rules for the others.
 
+Ranged PROGRAM parser model (streams `ranged-program-model-*`, harness pvh_c01, request `rprog <mode> <hex src> <tokens> <spans>`):
+the Lean model `PV.C02.parseRProgram` (lean/PV/C02/RProg.lean, ranged twin of PROG's reference program parser) computes the
+range of every node of a Module / Interactive / Expression parse — statements, patterns, handlers, cases, aliases,
+with-items, type parameters, parameters, the Mod node — from the real token stream and its real byte spans; its canonical
+ranged tree must be byte-identical with the real parser's, and the same oracle judges the real tree.
+
 Ranged parser model (streams `ranged-parser-model-*`, harness pvh_c01, request `rexpr <hex src> <spans>`): the Lean
 model `PV.C02.parseRExpression` (lean/PV/C02/RParse.lean, ranged twin of the reference expression parser) computes
 the range of every node from the tokens of the source and the real lexer's token spans; its canonical ranged tree
